@@ -15,25 +15,25 @@ import (
 
 // Profile tunes the configuration and action generators for one property.
 type Profile struct {
-	Name        string
-	MinGroups   int
-	MaxGroups   int
-	Dry         int // 0 never, 1 sometimes, 2 first group always dry (per-group or global)
-	Fleet       int // 0 never, 1 sometimes, 2 always
-	Auto        int // auto-discovery of min/max: 0 never, 1 sometimes
-	Default     int // a group named default: 0 never, 1 sometimes
-	Starve      int // scale_on_starve: 0 never, 1 sometimes
-	MaxAge      int // max_node_age: 0 never, 1 sometimes
-	MaxInit     int // max initial nodes per group
-	SmallGraces bool
-	MaxBelowASG int // 0: max_nodes drawn independently of the ASG max; 1: equal
-	Weights     map[string]int
-	Steps       int // actions per history
-	Stale       bool // allow scans without cache sync
-	NoNegRates  bool
-	DupTaints    bool  // external taints may add a second taint under the same key (different effect)
-	OwnNodesOnly bool  // pods are bound only to nodes of the group they select (twin runs: keeps groups independent in the environment too)
-	FaultFocus  string // "" = any call; "node-writes" = get/update failures aimed at early calls or single nodes
+	Name         string
+	MinGroups    int
+	MaxGroups    int
+	Dry          int // 0 never, 1 sometimes, 2 first group always dry (per-group or global)
+	Fleet        int // 0 never, 1 sometimes, 2 always
+	Auto         int // auto-discovery of min/max: 0 never, 1 sometimes
+	Default      int // a group named default: 0 never, 1 sometimes
+	Starve       int // scale_on_starve: 0 never, 1 sometimes
+	MaxAge       int // max_node_age: 0 never, 1 sometimes
+	MaxInit      int // max initial nodes per group
+	SmallGraces  bool
+	MaxBelowASG  int // 0: max_nodes drawn independently of the ASG max; 1: equal
+	Weights      map[string]int
+	Steps        int  // actions per history
+	Stale        bool // allow scans without cache sync
+	NoNegRates   bool
+	DupTaints    bool   // external taints may add a second taint under the same key (different effect)
+	OwnNodesOnly bool   // pods are bound only to nodes of the group they select (twin runs: keeps groups independent in the environment too)
+	FaultFocus   string // "" = any call; "node-writes" = get/update failures aimed at early calls or single nodes
 }
 
 // DrawConfig draws a configuration the real validator accepts.
@@ -285,6 +285,7 @@ func (w *World) drawTargetPods(rt *rapid.T, g int, forceClass ...string) (Action
 		if o.Name == controller.DefaultNodeGroup {
 			ps.Via = "none"
 		}
+		ps.Age = rapid.SampledFrom(podAges).Draw(rt, "podAge")
 		if len(all) > 0 && rapid.IntRange(0, 3).Draw(rt, "bound?") > 0 {
 			ps.Node = rapid.SampledFrom(all).Draw(rt, "podNode")
 			ps.BoundPending = rapid.IntRange(0, 3).Draw(rt, "boundPending") == 0
@@ -293,6 +294,9 @@ func (w *World) drawTargetPods(rt *rapid.T, g int, forceClass ...string) (Action
 	}
 	return Action{Op: "setPods", Group: g, Pods: pods}, class + "/" + drive
 }
+
+// podAges: how long ago a generated pod was created (seconds); pods commonly predate their node.
+var podAges = []int64{0, 0, 1, 45, 3600, 400 * 86400}
 
 // timeTargets lists clock steps that land around grace-period and cool-down boundaries.
 func (w *World) timeTargets() []time.Duration {
@@ -376,6 +380,7 @@ func (w *World) DrawAction(rt *rapid.T, p *Profile) (Action, string) {
 			ps := PodSpec{Group: g, Via: rapid.SampledFrom([]string{"selector", "affinity", "none"}).Draw(rt, "via"),
 				CPU: int64(rapid.IntRange(0, 3000).Draw(rt, "cpu")), Mem: int64(rapid.IntRange(0, 4000).Draw(rt, "memMB")) * 1_000_000,
 				Daemon: rapid.IntRange(0, 4).Draw(rt, "daemon") == 0, Split: rapid.IntRange(1, 2).Draw(rt, "split")}
+			ps.Age = rapid.SampledFrom(podAges).Draw(rt, "podAge")
 			if rapid.IntRange(0, 5).Draw(rt, "init") == 0 {
 				ps.InitCPU, ps.InitMem = int64(rapid.IntRange(0, 5000).Draw(rt, "initCPU")), int64(rapid.IntRange(0, 5000).Draw(rt, "initMemMB"))*1_000_000
 			}
@@ -602,9 +607,68 @@ func (w *World) DrawAction(rt *rapid.T, p *Profile) (Action, string) {
 			if tt := w.timeTargets(); len(tt) > 0 {
 				seq = append(seq, Action{Op: "advance", D: rapid.SampledFrom(tt).Draw(rt, "d")})
 			}
-			seq = append(seq, Action{Op: "scan", Flag: false})
+			if rapid.Bool().Draw(rt, "busyAfter") { // the pod cache is current and shows a surge, the node cache still lags
+				tp, _ := w.drawTargetPods(rt, g, "eqS+1", "aboveS", "farAboveS")
+				seq = append(seq, tp, Action{Op: "scan", Val: "pods"})
+			} else {
+				seq = append(seq, Action{Op: "scan", Flag: false})
+			}
 			return Action{Op: "seq", Seq: seq}, "staleWindow"
 		}
+	case "idleBlip": // a group without nodes scales up from zero, its pods vanish and come back inside the cool-down
+		via := "selector"
+		if w.Cfg.Groups[g].Opts.Name == controller.DefaultNodeGroup {
+			via = "none"
+		}
+		pod := PodSpec{Group: g, Via: via, CPU: int64(rapid.IntRange(1, 3000).Draw(rt, "cpu")), Mem: 1_000_000}
+		return Action{Op: "seq", Seq: []Action{
+			{Op: "zeroOut", Group: g}, {Op: "clearPods", Group: g},
+			{Op: "addPods", Group: g, Pods: []PodSpec{pod}}, {Op: "scan", Flag: true},
+			{Op: "clearPods", Group: g}, {Op: "advance", D: time.Duration(rapid.IntRange(0, 30).Draw(rt, "gap")) * time.Second}, {Op: "scan", Flag: true},
+			{Op: "addPods", Group: g, Pods: []PodSpec{pod, pod}}, {Op: "scan", Flag: true},
+		}}, "idleBlip"
+	case "sizeSeenOutOfBounds": // a fresh controller sees the group's nodes only while their number is outside [min_nodes, max_nodes]; then the group empties and pods arrive
+		via := "selector"
+		if w.Cfg.Groups[g].Opts.Name == controller.DefaultNodeGroup {
+			via = "none"
+		}
+		have := len(w.GroupNodeNames(g))
+		extra := w.Cfg.Groups[g].Opts.MaxNodes - have + rapid.IntRange(1, 2).Draw(rt, "over")
+		if mx := w.Cfg.Groups[g].Opts.MaxNodes; mx > 0 && mx <= 16 && extra > 0 {
+			k := int64(rapid.IntRange(2, 5).Draw(rt, "nodesWorth"))
+			return Action{Op: "seq", Seq: []Action{
+				{Op: "restart"}, {Op: "launch", Group: g, N: extra, Ages: []int64{0}, Flag: true}, {Op: "scan", Flag: true},
+				{Op: "zeroOut", Group: g}, {Op: "clearPods", Group: g},
+				{Op: "addPods", Group: g, Pods: []PodSpec{{Group: g, Via: via, CPU: w.Cfg.Groups[g].NodeCPU * k, Mem: 1_000_000}}}, {Op: "scan", Flag: true},
+			}}, "sizeSeenOutOfBounds"
+		}
+	case "leftoverNode": // the instance is terminated but deleting the node object fails; an operator looks at the leftover object before the next scan
+		names := w.GroupNodeNames(g)
+		if len(names) > 0 {
+			n := rapid.SampledFrom(names).Draw(rt, "node")
+			seq := []Action{{Op: "drainAndForce", Group: g, Names: []string{n}},
+				{Op: "fault", Faults: []sim.Fault{{Kind: sim.KDelete, Nth: -1, Node: n}}}, {Op: "scan", Flag: true}}
+			switch rapid.SampledFrom([]string{"cordon", "cordon", "annotate", "none"}).Draw(rt, "operator") {
+			case "cordon":
+				seq = append(seq, Action{Op: "cordon", Node: n, Flag: true})
+			case "annotate":
+				seq = append(seq, Action{Op: "annotate", Node: n, Val: "keep"})
+			}
+			seq = append(seq, Action{Op: "scan", Flag: true})
+			return Action{Op: "seq", Seq: seq}, "leftoverNode"
+		}
+	case "tinyThenZero": // the only node the controller has seen reports next to no allocatable; the group empties; pods arrive
+		via := "selector"
+		if w.Cfg.Groups[g].Opts.Name == controller.DefaultNodeGroup {
+			via = "none"
+		}
+		return Action{Op: "seq", Seq: []Action{
+			{Op: "zeroOut", Group: g}, {Op: "clearPods", Group: g},
+			{Op: "oddNode", Group: g, Key: rapid.SampledFrom([]string{"tinycpu", "tinymem"}).Draw(rt, "kind"), N: rapid.IntRange(0, 5000).Draw(rt, "age")},
+			{Op: "scan", Flag: true}, {Op: "zeroOut", Group: g},
+			{Op: "addPods", Group: g, Pods: []PodSpec{{Group: g, Via: via, CPU: int64(rapid.IntRange(1, 3000).Draw(rt, "cpu")), Mem: int64(rapid.IntRange(1, 4000).Draw(rt, "mem")) * 1_000_000}}},
+			{Op: "scan", Flag: true},
+		}}, "tinyThenZero"
 	case "starveAfterScaleUp": // capacity that was requested arrives, the cool-down ends, a pod too big for any free slot is pending
 		via := "selector"
 		if w.Cfg.Groups[g].Opts.Name == controller.DefaultNodeGroup {
